@@ -141,6 +141,25 @@ CHECKS = {
          "of multi-record messages and simultaneous expiries. One open known finding (shared cache replayed by every browser) is "
          "reported as KNOWN-FINDING.",
          "DESIGN.md section 4 (C15/C19)", "Rocq proof over all worlds and handler invocations (provenance of every report) + reference-cache acceptor on implementation traces + differential correspondence"),
+ "C19": ("Theorems (Properties_C19.v, over BrowserTimers.v): C19_question_timer_always_armed - in every state the virtual-time kernel reaches "
+         "from the empty world (any messages, API calls creating any number of browsers and caches, clock advances, timers firing at or "
+         "after their deadline) a created browser has its question timer in the table with deadline = instant of its latest browse "
+         "question + the period read from browser.cpp (<= 60 s): no handler stops, loses or postpones it; C19_question_timer_runs - the "
+         "same after every script of the executable model; C19_question_timer_fires - firing sends one PTR question for the type listing "
+         "exactly the cached PTRs of that name and re-arms; C19_refresh_warning_slots - a refresh warning reaches every browser attached "
+         "to the cache, each asking for the record's name and type; C19_followup_question / _message_shape - after a response's records "
+         "are cached, one multicast question asks SRV and TXT for exactly the touched instances that have a PTR of the type but no SRV; "
+         "C19_enumerate_all_batch - the batch timer asks one PTR question per newly learnt type and empties the batch. The instants "
+         "(refresh at 50/85/90/95 % + 0..19 ms, batching within 100 ms, period) are also decided per run by mon_browser (codes 70-74) over virtual durations of hours.",
+         "DESIGN.md section 4 (C15/C19)", "Rocq invariant proof over all kernel-reachable states of the browser model + timing acceptor on implementation traces under virtual time + differential correspondence"),
+ "C20": ("Theorem C20_values (Properties_C20.v): for every program of construction, copy, assignment (incl. self-assignment), every "
+         "setter (incl. Bitmap::setData with the bitmap's own data()), comparison, reading and destruction, the model of bitmap.cpp on "
+         "an abstract heap never reads or frees a block it does not own (no fault, no double free) and prints exactly what the pure "
+         "value semantics prints; C20_record_eq: Record::operator== (conjunct list regenerated from record.cpp) is equality of name, "
+         "type and every data field, TTL and cache-flush excluded, and the private member list is covered. Tie: the same programs run "
+         "on the real classes under ASan (random and all programs of <= 2 (thorough 3) operations over two variables), on the heap "
+         "model and on the pure semantics. Partial in that the C++ object code itself is not verified.",
+         "DESIGN.md section 4 (C20)", "Rocq refinement proof (abstract heap vs pure values, separation invariant) + SrcFacts field lists + ASan-checked differential correspondence"),
  "C16": ("Theorems (Properties_C16.v, over ResolverProofs.v / ResolverInv.v): the reports a response causes are exactly spec_reports - in record "
          "order the address of every A/AAAA record for exactly the name with nonzero TTL unless already reported (C16_response_reports), read "
          "declaratively as only-valid (C16_reports_only_valid) and every-valid (C16_every_valid_address_reported); over any sequence of "
